@@ -690,15 +690,24 @@ def streamRest (ctx : Ctx) (c : Nat) (w : World) : World :=
     else (w, true)
   if ok && moreResults c w then (call ctx .N c w).1 else w
 
+/-- the deferred function of `writeResponse`, first half (fix 7cb439b): a
+    `continueConn` that still has rows or results pending after
+    `writeOKResultStream` - the stream was given up - is closed, pinned or not -/
+def closeGivenUp (c : Nat) (w : World) : World :=
+  if morePending c w then close c w else w
+
 /-- `writeResponse`: a result (`RespResult`, shown to the client as a result set
     or as OK) is streamed when `continueConn` is set (`streamRest`); afterwards
-    (deferred) `recycleContinueConn`.  The Boolean is false when the response
+    (deferred) a connection whose stream was given up is closed (`closeGivenUp`;
+    `continueConn` is only ever set together with a result response, see
+    `executeCommand`, so the close is modelled on that branch), then
+    `recycleContinueConn`.  The Boolean is false when the response
     could not be delivered (mysql.ErrBadConn: no packet). -/
 def writeResponse (ctx : Ctx) (r : Resp) (s : St) : St × Bool :=
   let s :=
     match s.continueConn with
     | some c =>
-      if r == .res || r == .ok then { s with w := streamRest ctx c s.w } else s
+      if r == .res || r == .ok then { s with w := closeGivenUp c (streamRest ctx c s.w) } else s
     | none => s
   let s := recycleContinueConn ctx s.continueConn s
   ({ s with continueConn := none }, r != .badconn)
